@@ -129,6 +129,18 @@ CHECKS.update({
             "disjoint windows; one CallResult per ContextResult as all stream front ends emit", "DESIGN.md 4 C06"),
 })
 
+CHECKS.update({
+    "C05": ("Hypothesis generated search; differential oracle (front end vs direct call on the model's window rows) with run-time probe tests",
+            "Generated data tables (0-25 rows, optional z/lat/lon/time columns, five row-index kinds) and configs (1-3 "
+            "contexts; closed, one-sided, empty, all-covering or absent windows cut exactly on row timestamps; 11 runnable "
+            "tests plus two probe tests that record the arrays they are handed) are run through PandasStream, "
+            "NumpyStream(dict/array), XarrayStream (two layouts), NetcdfStream and QcConfig.run; the multiset of (stream, "
+            "test, row mask, flags) must equal the direct calls on {starting <= t < ending} and the probes must have "
+            "received exactly the restricted arrays.",
+            "naive windows, no regions; open findings K-1/K-2/K-3 (XarrayStream windows) are excluded only when the outcome "
+            "equals what those defects produce exactly", "DESIGN.md 4 C05"),
+})
+
 NOT_APPLICABLE = {}
 
 
